@@ -16,7 +16,6 @@ import (
 	"os"
 	"os/exec"
 	"path/filepath"
-	"regexp"
 	"runtime/debug"
 	"sort"
 	"strings"
@@ -131,13 +130,15 @@ func judgeC01Load(args, real, _ json.RawMessage) *core.Verdict {
 	}
 	json.Unmarshal(real, &r)
 	if why := nonTermination(real); why != "" {
-		if !strings.HasPrefix(a.Shape, "cycle/") {
-			// outside the stream of inputs that are expected not to return: confirm in isolation first
-			if again := confirmNonTermination("c01load", args, 30*time.Second); again != nil && nonTermination(again) == "" {
-				real = again
-				json.Unmarshal(real, &r)
-				why = ""
-			}
+		// a watchdog that fires inside a busy batch is not evidence: confirm in isolation first
+		check := "c01load"
+		if strings.HasPrefix(a.Shape, "cycle/") {
+			check = "c01cycle"
+		}
+		if again := confirmNonTermination(check, args, 30*time.Second); again != nil && nonTermination(again) == "" {
+			real = again
+			json.Unmarshal(real, &r)
+			why = ""
 		}
 		if why != "" {
 			return core.Fail("hang@"+hangCause(a), fmt.Sprintf("load does not return (%s; shape %s)", why, a.Shape))
@@ -249,30 +250,13 @@ func confirmNonTermination(check string, args json.RawMessage, timeout time.Dura
 	}
 }
 
-var selfMergeRe = regexp.MustCompile(`<<\s*:\s*\[?\s*\*`)
 
-// hangCause names the construct that makes a load loop.  In the reference-cycle stream every input is a named
-// shape (the recorded defects have their own names; any *other* cycle shape that stops returning is a new
-// key).  In the random streams the cause is read off the input, so the key is stable across seeds.
+// hangCause names the input class of a load that does not return: the named shape in the reference-cycle stream,
+// the stream otherwise.  (The three non-terminations found in round 1 — merge key aliasing its own anchor, alias
+// cycle through an `!override` node, include cycle through an override path — are repaired; none is expected.)
 func hangCause(a c01Args) string {
 	if strings.HasPrefix(a.Shape, "cycle/") {
-		switch {
-		case strings.HasPrefix(a.Shape, "cycle/alias-self-merge"):
-			return "alias-self-merge"
-		case strings.HasPrefix(a.Shape, "cycle/alias-override-cycle"):
-			return "alias-override-cycle"
-		}
 		return a.Shape
-	}
-	for _, c := range a.Req.Files {
-		if selfMergeRe.MatchString(c) {
-			return "alias-self-merge"
-		}
-	}
-	for _, c := range a.Req.Files {
-		if strings.Contains(c, "!override") && strings.Contains(c, "&") && strings.Contains(c, "*") {
-			return "alias-override-cycle"
-		}
 	}
 	return shapeClass(a.Shape)
 }
